@@ -11,3 +11,10 @@ pub open spec fn pattern_lines(ls: Seq<LineS>, n: int) -> Seq<LineS> decreases n
 pub open spec fn prior_lines(m: Map<PathS, Ignore>, d: PathS) -> Seq<LineS> {
     if m.contains_key(d) && m[d].builder is Some { builder_lines(m[d].builder->Some_0) } else { Seq::empty() }
 }
+
+pub open spec fn has_builder(m: Map<PathS, Ignore>, d: PathS) -> bool { m.contains_key(d) && m[d].builder is Some }
+// recompile(d): same directories, d's node keeps its builder and its matcher is built from exactly that builder's lines, every other node unchanged
+pub open spec fn recompiled_node(m0: Map<PathS, Ignore>, m1: Map<PathS, Ignore>, d: PathS) -> bool {
+    m1.dom() =~= m0.dom() && m1[d].builder == m0[d].builder && matcher_lines(m1[d].gitignore) == builder_lines(m0[d].builder->Some_0)
+    && (forall|k: PathS| #[trigger] m0.contains_key(k) && k != d ==> m1[k] == m0[k])
+}
